@@ -9,7 +9,8 @@ Three layers, all on every run:
    linearisation (trace-equivalent to the input) and  run(out) = P_layout . run(in)  for every
    permutation-equivariant interpretation of gates; swap_guard_<Router> statements (Sabre
    candidates, Sabre shortest-path fallback, ShortestPaths._add_swaps);
-   StarConnectivityRouter as a deterministic refinement; verified reorder checker for blocks.
+   StarConnectivityRouter as a deterministic refinement; blocks_equiv for all circuits
+   (block_decomposition only exchanges gates on disjoint qubits) + verified reorder checker.
 2. correspondence: CircuitMap.update / undo / execute_block are wrapped at run time; the
    decision trace of the real router is replayed through the Coq step function (vm_compute)
    and every intermediate layout, the emitted circuit and the final layout are compared;
@@ -19,7 +20,7 @@ Three layers, all on every run:
    (Gaussian-integer Unitary gates + exact named gates), (d) wire names kept, final
    measurements on the same logical qubits / registers.
 """
-STATIC = ["C09/Props", "C09/ModelCheck"]
+STATIC = ["C09/Props", "C09/ModelCheck", "C09/ModelDag", "C09/InstMat"]
 import itertools
 import json
 import os
@@ -318,11 +319,37 @@ class Tracer:
             return r
 
         CM.update, CM.undo, CM.execute_block = update, undo, execute_block
+        # the DAG and every front layer the routers compute
+        self.dags = []
+        self.saved_dag = self.R._create_dag
+        s_dag = self.saved_dag
+
+        def create_dag(pairs):
+            d = s_dag(pairs)
+            self.dags.append(([list(p) for p in pairs], sorted((int(a), int(b)) for a, b in d.edges)))
+            return d
+
+        self.R._create_dag = create_dag
+        self.saved_front = {}
+        for cls in (self.R.Sabre, self.R.ShortestPaths):
+            orig = cls._update_front_layer
+            self.saved_front[cls] = orig
+
+            def upd(self_, _orig=orig):
+                r = _orig(self_)
+                if self_.circuit_map is not None:
+                    ev.append((id(self_.circuit_map), "front", tuple(int(x) for x in self_._front_layer), None, None))
+                return r
+
+            cls._update_front_layer = upd
         return self
 
     def __exit__(self, *a):
         for name, f in self.saved.items():
             setattr(self.R.CircuitMap, name, f)
+        self.R._create_dag = self.saved_dag
+        for cls, f in self.saved_front.items():
+            cls._update_front_layer = f
 
     def trace_of(self, circuit_map):
         return [e[1:] for e in self.events if e[0] == id(circuit_map)]
@@ -358,6 +385,7 @@ def run_router(spec, timeout=20.0):
                 info["error"] = f"{type(e).__name__}: {e}"
         if "cm" in captured:
             info["trace"] = tr.trace_of(captured["cm"])
+            info["dag"] = tr.dags[0] if tr.dags else None
             info["q_objs"] = captured["q_objs"]
             info["block_objs"] = captured["block_objs"]
             info["finals"] = list(getattr(router, "_final_measurements", None) or [])
@@ -462,7 +490,7 @@ def _is_mid(gs, i):
 
 # ------------------------------------------------------------------ Coq encoding
 HEADER = ("From Coq Require Import List Arith Bool.\nImport ListNotations.\n"
-          "From QV Require Import C09.Trace C09.ModelRouter C09.ModelBlocks C09.ModelStar C09.ModelCheck.\n")
+          "From QV Require Import C09.Trace C09.ModelRouter C09.ModelBlocks C09.ModelStar C09.ModelCheck C09.ModelDag.\n")
 
 
 def nl(xs):
@@ -538,7 +566,13 @@ def model_terms(spec, info):
                 enc.append(cgate(kind_of(g), uid[id(g)], g.qubits))
         items.append(f"(mkI {int(name)} {nl(qs)} {cgates(enc)})")
     ops, logged = [], []
+    executed, snaps = [], []
     for (what, args, l2p, p2l) in info["trace"]:
+        if what == "front":
+            snaps.append(f"({nl(executed)}, {nl(args)})")
+            continue
+        if what == "exec":
+            executed.append(int(args[0]))
         if what == "swap":
             ops.append(f"(OSwap {args[0]} {args[1]})")
         elif what == "undo":
@@ -551,7 +585,12 @@ def model_terms(spec, info):
     its = "[" + "; ".join(items) + "]"
     t_replay = f"replay {n} {cgraph(spec)} {its} {fin} {cgates(ops)} {cgates(logged)}"
     t_blocks = f"blocks_check {n} {body} {its}"
-    return {"replay": t_replay, "blocks": t_blocks, "objs": objs, "split": split,
+    t_dag = None
+    if info.get("dag"):
+        pairs, edges = info["dag"]
+        t_dag = ("dag_check [" + "; ".join(nl(p) for p in pairs) + "] [" + "; ".join(f"({a}, {b})" for a, b in edges) + "] "
+                 + nl(executed) + " [" + "; ".join(snaps) + "]")
+    return {"replay": t_replay, "blocks": t_blocks, "dag": t_dag, "nsnaps": len(snaps), "objs": objs, "split": split,
             "nops": len(ops), "nblocks": len(items), "nundo": sum(1 for o in ops if o == "OUndo")}
 
 
@@ -789,7 +828,7 @@ def coq_batches(run, pending, label, found, stats):
             if "star" in t:
                 exprs.append(t["star"])
             else:
-                exprs += [t["replay"], t["blocks"]]
+                exprs += [t["replay"], t["blocks"]] + ([t["dag"]] if t["dag"] else [])
         vals = run.coq_eval(f"C09_{label}_{b // CH}.v", HEADER, exprs, timeout=900)
         if vals is None:
             run.oblige(f"model_replay_{label}_{b // CH}", False, "correspondence")
@@ -821,7 +860,17 @@ def coq_batches(run, pending, label, found, stats):
                                                         {"spec": spec, "graph": nm}))
                 continue
             stepped, tr_ok, front_ok, guard_ok, unr_ok, empty, mout, ml2p = parse_coq(next(it))
-            b_eq, b_reorder = parse_coq(next(it))
+            b_eq, b_reorder, b_hyp = parse_coq(next(it))
+            if t["dag"]:
+                tr_ok, fr_ok, fl_ok = parse_coq(next(it))
+                stats["dags_checked"] = stats.get("dags_checked", 0) + 1
+                stats["front_layers_compared"] = stats.get("front_layers_compared", 0) + t["nsnaps"]
+                if not tr_ok:
+                    found.setdefault("model:transitive_reduction", ("the reduced DAG of the implementation is not a valid transitive reduction of the model's _create_dag edges",
+                                                                    {"spec": spec, "graph": nm, "model_only": True}))
+                if not (fr_ok and fl_ok):
+                    found.setdefault(f"front_layer:{rname}", ("the front layer of the DAG differs from 'no remaining earlier block shares a qubit' (logged front layers / DAG model / specification)",
+                                                             {"spec": spec, "graph": nm}))
             stats["traces_replayed"] = stats.get("traces_replayed", 0) + 1
             stats["ops_replayed"] = stats.get("ops_replayed", 0) + t["nops"]
             stats["undo_ops_replayed"] = stats.get("undo_ops_replayed", 0) + t["nundo"]
@@ -853,6 +902,9 @@ def coq_batches(run, pending, label, found, stats):
                 if not b_eq:
                     found.setdefault("model:block_decomposition", ("block_decomposition model and implementation disagree",
                                                                    {"spec": spec, "graph": nm, "model_only": True}))
+                if not b_hyp:
+                    found.setdefault("model:blocks_equiv_hypothesis", ("the hypothesis of blocks_equiv (distinct gates, distinct qubits) fails on a real input",
+                                                                       {"spec": spec, "graph": nm, "model_only": True}))
                 if not b_reorder:
                     found.setdefault("blocks_reorder", ("flatten(block_decomposition(c)) is not a dependency-respecting reordering of c (verified checker)",
                                                         {"spec": spec, "graph": nm}))
@@ -895,9 +947,14 @@ def main(run):
                     "exact complex128 arithmetic on Gaussian integers below 2^50 (asserted) for the operator comparison; numpy tensordot/transpose",
                     "harness: gate payload canonicalisation, run-time wrapping of CircuitMap.update/undo/execute_block"]
     run.assumptions += ["termination of the routers is not claimed (safety only; every router call runs under a timeout)",
-                        "the semantic theorem routing_ok is stated for every interpretation of gates that is permutation-equivariant and in which gates on disjoint qubits commute (Section hypotheses); that qibo's matrices form such an interpretation is the textbook fact perm.embed = embed.perm, not proved here",
+                        "the semantic theorem routing_ok is stated for every interpretation of gates that is permutation-equivariant and in which gates on disjoint qubits commute; C09/InstMat.v proves that the dense matrices of Base/Mat.v (over any commutative semiring) form such an interpretation (routing_ok_matrices)",
                         "floating-point rounding is irrelevant: all compared data are integers / structures"]
     theorem_obligations(run)
+    theorem_obligations(run, "C09/InstMat")     # routing_ok at the concrete dense matrices of Base/Mat.v
+    run.notes["interpretation_instance"] = ("PROVED (C09/InstMat.v, Base/Sem.v, Base/SemPerm.v): qibo-style dense operators "
+                                            "(embed of a gate matrix on its qubits, qubit-permutation matrices, SWAP for the inserted "
+                                            "gate) form an `interp`: disjoint gates commute, permutation equivariance, tag 0 = SWAP; "
+                                            "routing_ok_matrices is routing_ok at this instance")
     found, stats = {}, {}
     t_lim = 20.0
     cases = main_cases(run.tier, rng)
@@ -912,9 +969,7 @@ def main(run):
         run.find(key, what, rp, concrete=concrete)
     run.notes["stats"] = stats
     run.notes["traces_validated_against_impl"] = stats.get("traces_replayed", 0) + stats.get("star_replayed", 0)
-    run.not_proved += ["blocks_equiv for ALL circuits (the fusion loop and the two-phase initial decomposition are checked per run by the verified reorder checker, not proved universally)",
-                       "that qibo's dense matrices satisfy the Section hypotheses of routing_ok (permutation equivariance of embed)",
-                       "termination of Sabre / ShortestPaths"]
+    run.not_proved += [                       "termination of Sabre / ShortestPaths"]
     return run.finish(level="proof", rule=RULE)
 
 
